@@ -74,6 +74,14 @@ Inv_NestConj ==
 Inv_TopClean ==
     (l >= 1 /\ frames = <<>> /\ ~unwinding) => (~Last.g.has /\ Last.g.oneconst /\ Last.g.tok = 0 /\ Last.g.onetok = 1)
 
+\* the meaning of constants: a plain integer c turned into a linear combination (LinComb._ensurelc(3), what every assert_* does with
+\* an integer operand) is 3 times the constant one outside regions and 3 times the ACTIVE guard inside -- in particular, after a
+\* region has ended, nothing of that region's guard is left in it.  (E.k3 = the wire expression the code returned, E.g.lc the guard's)
+Times3(lc) == [i \in DOMAIN lc |-> <<lc[i][1], (3 * lc[i][2]) % Tr.P>>]
+Inv_ConstMeaning ==
+    (l >= 1 /\ Last.ev = "call" /\ Last.hask3 /\ ~unwinding) =>
+        Last.k3 = (IF GuardFrames = {} THEN << <<0, 3>> >> ELSE Times3(Last.g.lc))
+
 \* conformance of the remaining components with the mechanism spec (model drift, not an alarm)
 Inv_Drift ==
     (l >= 1 /\ ~unwinding) =>
